@@ -29,11 +29,12 @@ structure VIn where
   frames : List PFrame              -- physical frames in the WAL file
   syncedToWALEnd : Bool             -- in-memory state
   fresh : Bool                      -- in-memory lastSyncedWALOffset = 0 (first verify after start/reopen)
+  unresolved : Bool                 -- in-memory checkpointUnresolved: a non-PASSIVE checkpoint ran but its follow-up failed
 deriving Repr
 
 inductive Reason where
   | none | first | truncated | saltResetAtHeader | saltResetOneFrame | lastPageMismatch
-  | restartedWhileDown | fullCheckpoint
+  | restartedWhileDown | fullCheckpoint | checkpointUnresolved
 deriving DecidableEq, Repr
 
 structure VOut where
@@ -62,6 +63,7 @@ def detectFull (i : VIn) : Bool :=
 /-- `verifyWithExecutor`. -/
 def verify (i : VIn) : VOut :=
   if i.posZero then ⟨true, 0, false, false, .first⟩ else
+  if i.unresolved then ⟨true, i.ltx.endIdx, false, false, .checkpointUnresolved⟩ else
   if i.ltx.endIdx > i.frames.length then
     if i.syncedToWALEnd then ⟨false, 0, true, true, .none⟩
     else ⟨true, i.ltx.endIdx, false, false, .truncated⟩
